@@ -49,6 +49,9 @@ def dispatch(ctx):
         'self.check_nodes': ['prophyc.generators.cpp:CppGenerator.check_nodes', 'prophyc.generators.cpp_full:CppFullGenerator.check_nodes',
                              'prophyc.generators.base:GeneratorAbc.check_nodes'],
         'translator': calls, 'prerequisite_block_translator': calls, 'handler': translate,
+        # the same callees when the local that holds them is folded into its use (normal form, N10)
+        'translator_type()': calls, 'prerequisite_block_translator()': calls, '_actions.get(patch_.action)': actions,
+        '_actions[patch_.action]': actions, 'self._get_translation_handler(node)': translate,
         'emit.error': ['prophyc:Emit.error'], 'emit_error': ['prophyc:Emit.error'], 'emit.warn': ['prophyc:Emit.warn'],
         'self.emit.warn': ['prophyc:Emit.warn'], 'warn': ['prophyc:Emit.warn', 'prophyc.model:null_warn'],
         'self.warn': ['prophyc:Emit.warn'], 'warn_emitter': ['prophyc:Emit.warn'],
@@ -72,20 +75,17 @@ TUPLE2 = 'the unpacked value is a 2-tuple by construction on every path that rea
 ENV = 'I/O failure of the environment (permissions, disk, a file vanishing between validation and use): outside the input ' \
       'quantifier of the property; the path itself was validated by options.readable_file / readable_dir / os.path.isfile'
 SAFE = {
-    ('prophyc.generators.base:TranslatorBase._get_translation_handler', "assert _v0, 'Unknown node type: {}'.format(type(_v1).__name__)"):
+    ('prophyc.generators.base:TranslatorBase._get_translation_handler', 'ANY AssertionError'):
         'every node class the front-ends produce at top level is a key of _translation_methods_map (re-checked on this run)',
-    ('prophyc.generators.base:_make_path', "assert _v0.startswith('.')"):
-        'extensions are the literal keys of top_level_translators, all starting with a dot (re-checked on this run)',
-    ('prophyc.generators.base:_make_path', 'assert os.path.isdir(_v0), "Output directory %s doesn\'t exist." % _v0'): ENV,
-    ('prophyc.generators.cpp:_Padder.generate_padding', 'assert 0 < _v0 < 8'):
+    ('prophyc.generators.base:_make_path', 'ANY AssertionError'):
+        'extensions are the literal keys of top_level_translators, all starting with a dot (re-checked on this run); the output directory '
+        'was validated by options.readable_dir (environment, outside the quantifier of the property)',
+    ('prophyc.generators.cpp:_Padder.generate_padding', 'ANY AssertionError'):
         'callers pass member.padding under a `> 0` guard, alignment - DISC_SIZE under `alignment > DISC_SIZE`, or the constant 4; '
         'paddings are below the maximum alignment 8 (C08.gap-obligation / F9 rules check the guards)',
-    ('prophyc.model:StructMember.__init__', 'assert isinstance(_v0, bool), "\'greedy\' argument value has to be boolean"'):
-        'every constructor call site passes a literal bool or nothing (C17.constructor-shape checks all call sites)',
-    ('prophyc.model:StructMember.__init__', 'assert isinstance(_v0, bool), "\'optional\' argument value has to be boolean"'):
-        'every constructor call site passes a bool-typed expression or nothing (C17.constructor-shape checks all call sites)',
-    ('prophyc.model:StructMember.__init__', "assert sum((bool(_v0 or _v1), _v2, _v3)) <= 1, 'Over-constraint'"):
-        'no constructor call site combines array keywords with greedy/optional (C17.constructor-shape checks all call sites)',
+    ('prophyc.model:StructMember.__init__', 'ANY AssertionError'):
+        'every constructor call site passes literal / bool-typed greedy and optional arguments and never combines array keywords with '
+        'greedy/optional (C17.constructor-shape checks all call sites)',
     ('prophyc.file_processor:FileProcessor._process_file', 'CyclicIncludeError(_v0)'):
         'escapes only through process_main at top level, where no file is in progress (files[path] is None only while that file '
         'is being processed); nested occurrences are caught by p_include_def / make_include',
